@@ -76,7 +76,7 @@ func genCrud(r *gen.R, sess int) sched.Op {
 }
 
 func genScenario(r *gen.R) sched.Scenario {
-	kinds := []string{"crud", "crud", "session", "session", "wtx", "shared", "shared", "close", "direct", "stream", "endstart", "store", "store", "closequeue", "staleabort", "rmw", "rmw", "usesession", "usesession"}
+	kinds := []string{"crud", "crud", "session", "session", "wtx", "shared", "shared", "close", "direct", "stream", "endstart", "store", "store", "closequeue", "staleabort", "rmw", "rmw", "usesession", "usesession", "catalog", "catalog", "badddl", "doubleclose"}
 	kind := kinds[r.N(len(kinds))]
 	return genScenarioKind(r, kind)
 }
@@ -118,6 +118,66 @@ func genScenarioKind(r *gen.R, kind string) sched.Scenario {
 			sc.Actors = append(sc.Actors, s)
 		}
 		sc.FileStore = r.P(25)
+	case "catalog":
+		// catalog-level calls and batches on db.n, a collection that does not exist yet: CreateCollection /
+		// CreateIndex / Drop race with the first inserts (also from a session transaction that commits
+		// while they are queued); an unordered InsertMany is ONE transaction for readers and UpdateMany
+		sc.Sessions = 1
+		if r.P(70) {
+			h := []sched.Op{{Kind: "sstart", Sess: 1}}
+			if r.P(60) {
+				h = append(h, sched.Op{Kind: []string{"insn", "insu"}[r.N(2)], Sess: 1})
+			}
+			sc.Actors = append(sc.Actors, append(h, sched.Op{Kind: []string{"scommit", "scommit", "sabort"}[r.N(3)], Sess: 1}))
+		} else {
+			sc.Actors = append(sc.Actors, []sched.Op{{Kind: []string{"insn", "insu", "ccoll"}[r.N(3)]}})
+		}
+		pool := []string{"ccoll", "ccoll", "insn", "insn", "insu", "insu", "updall", "findn", "findn", "crix"}
+		if r.P(20) {
+			pool = append(pool, "dropn")
+		}
+		for k, nw := 0, 2+r.N(3); k < nw; k++ {
+			var s []sched.Op
+			for j := 1 + r.N(2); j > 0; j-- {
+				s = append(s, sched.Op{Kind: pool[r.N(len(pool))]})
+			}
+			sc.Actors = append(sc.Actors, s)
+		}
+	case "badddl":
+		// a catalog call with an invalid name must fail promptly and leave the writer slot free
+		v := sched.BadDDL[r.N(len(sched.BadDDL))]
+		sc.Kind = "badddl-" + v
+		sc.Sessions = 1
+		a1 := []sched.Op{{Kind: "badddl", Fault: v}}
+		if r.P(40) {
+			// (index calls do not join a session transaction — they report "nested" — so the invalid call
+			// gets no session context; here it follows a finished session transaction)
+			a1 = []sched.Op{{Kind: "sstart", Sess: 1}, {Kind: []string{"scommit", "sabort"}[r.N(2)], Sess: 1}, {Kind: "badddl", Fault: v}}
+		}
+		if r.P(30) {
+			a1 = append(a1, sched.Op{Kind: "badddl", Fault: sched.BadDDL[r.N(len(sched.BadDDL))]})
+		}
+		sc.Actors = append(sc.Actors, a1)
+		for a := 2; a <= n; a++ {
+			sc.Actors = append(sc.Actors, []sched.Op{{Kind: []string{"inc", "ins", "fau", "find", "badddl"}[r.N(5)], Fault: ""}})
+			if last := &sc.Actors[len(sc.Actors)-1][0]; last.Kind == "badddl" {
+				last.Fault = sched.BadDDL[r.N(len(sched.BadDDL))]
+			}
+		}
+	case "doubleclose":
+		// two overlapping Engine.Close calls while a session transaction holds the token; with a short
+		// expiry interval the expiry goroutine is mid-iteration (monitors only then)
+		sc.Sessions = 1
+		sc.Actors = [][]sched.Op{{{Kind: "close"}}, {{Kind: "close"}}, {{Kind: "sstart", Sess: 1}, {Kind: "inc", Sess: 1}, {Kind: []string{"scommit", "sabort", "send"}[r.N(3)], Sess: 1}}}
+		if r.P(60) {
+			sc.Actors = append(sc.Actors, []sched.Op{{Kind: []string{"inc", "ins", "find"}[r.N(3)], Ctx: []string{"", "bg", "timeout"}[r.N(3)]}})
+		}
+		if r.P(50) {
+			sc.Actors[0] = append(sc.Actors[0], sched.Op{Kind: "inc"})
+		}
+		if r.P(50) {
+			sc.ExpireMS = 1 + r.N(5)
+		}
 	case "usesession":
 		// Client.UseSession whose callback starts a transaction, writes and leaves in one of five ways;
 		// the other actors' plain writes must get the writer slot afterwards (directed in directedFor)
@@ -478,6 +538,12 @@ func schedCaseOf(o *sched.Outcome, stream string) run.Case {
 		c.Impl = `{"aborted":true}`
 		return c
 	}
+	if sc.ExpireMS > 0 {
+		// the expiry goroutine runs free (it is not an actor): its steps are not in the trace — monitors only
+		c.Tags = dedup(append(tags, "unmodelled:expiry"))
+		c.Impl = `{"unmodelled":"expiry"}`
+		return c
+	}
 	if o.TornDown {
 		// the controller ended a client-held transaction so that a token waiter could finish (in real
 		// time: the one-minute token timeout); that Abort is not an actor's step, so the trace is not
@@ -584,6 +650,25 @@ func directedFor(r *gen.R, sc sched.Scenario) sched.Chooser {
 				steps = append(steps, sched.Directive{Actor: a, Until: "done"})
 			}
 			steps = append(steps, sched.Directive{Actor: 1, Until: "done"})
+		}
+	case "catalog":
+		if r.P(80) {
+			until := "op.start"
+			if len(sc.Actors[0]) == 1 {
+				until = []string{"begin.acquired", "commit.locked", "store.enter"}[r.N(3)]
+			}
+			steps = []sched.Directive{{Actor: 1, Until: until}}
+			for a := 2; a <= n; a++ {
+				steps = append(steps, sched.Directive{Actor: a, Until: "done"})
+			}
+			steps = append(steps, sched.Directive{Actor: 1, Until: "done"})
+		}
+	case "doubleclose":
+		if r.P(80) {
+			// the session takes the token, a writer queues, the first Close is parked half-way, the second
+			// Close runs into it
+			steps = []sched.Directive{{Actor: 3, Until: "op.start"}, {Actor: 4, Until: "done"},
+				{Actor: 1, Until: []string{"close.locked", "close.wait", "close.return"}[r.N(3)]}, {Actor: 2, Until: "done"}, {Actor: 1, Until: "done"}}
 		}
 	case "rmw":
 		if r.P(80) {
@@ -751,6 +836,31 @@ func corpusScenarios() ([]sched.Scenario, map[int][]sched.Directive) {
 		out = append(out, S("shared", 1, true,
 			[]sched.Op{o("sstart", 1), {Kind: "upd0", Sess: 1, Ctx: ctx}, o("send", 1), o("sabort", 1)}, []sched.Op{o("sstart", 1)}, []sched.Op{o("find", 0)}))
 		directed[len(out)-1] = []sched.Directive{{Actor: 2, Until: "begin.acquired"}, {Actor: 1, Until: "op.start"}, {Actor: 1, Until: "done"}, {Actor: 2, Until: "done"}, {Actor: 1, Until: "done"}}
+	}
+	// catalog-level races on db.n: a session transaction holds the token; CreateCollection and the first
+	// insert queue behind it / the session itself makes the first insert and commits while they queue
+	for v := 0; v < 3; v++ {
+		h := []sched.Op{o("sstart", 1), o("scommit", 1)}
+		if v == 1 {
+			h = []sched.Op{o("sstart", 1), o("insn", 1), o("scommit", 1)}
+		}
+		sc := S("catalog", 1, false, h, []sched.Op{o("ccoll", 0)}, []sched.Op{o("insn", 0)}, []sched.Op{o("findn", 0), o("findn", 0)})
+		if v == 2 {
+			sc = S("catalog", 1, false, h, []sched.Op{o("insu", 0)}, []sched.Op{o("updall", 0)}, []sched.Op{o("findn", 0), o("findn", 0), o("findn", 0)})
+		}
+		out = append(out, sc)
+		directed[len(out)-1] = []sched.Directive{{Actor: 1, Until: "op.start"}, {Actor: 3, Until: "done"}, {Actor: 2, Until: "done"}, {Actor: 4, Until: "op.start"}, {Actor: 1, Until: "done"}}
+	}
+	// invalid names: the call fails, the next plain write proceeds
+	for _, v := range sched.BadDDL {
+		out = append(out, S("badddl-"+v, 0, false, []sched.Op{{Kind: "badddl", Fault: v}, o("inc", 0)}, []sched.Op{o("inc", 0)}))
+	}
+	// two overlapping Close calls while a session transaction holds the token and a writer is queued
+	for v := 0; v < 2; v++ {
+		sc := S("doubleclose", 1, false, []sched.Op{{Kind: "close"}}, []sched.Op{{Kind: "close"}, o("inc", 0)}, []sched.Op{o("sstart", 1), o("scommit", 1)}, []sched.Op{{Kind: "inc", Ctx: "bg"}})
+		sc.ExpireMS = v * 2
+		out = append(out, sc)
+		directed[len(out)-1] = []sched.Directive{{Actor: 3, Until: "op.start"}, {Actor: 4, Until: "done"}, {Actor: 1, Until: "close.wait"}, {Actor: 2, Until: "done"}, {Actor: 1, Until: "done"}}
 	}
 	// Client.UseSession: the callback starts a transaction, writes, and leaves by commit / error / panic /
 	// runtime.Goexit / plain return without commit — the session must be ended on every way out, so the
